@@ -383,7 +383,9 @@ def f_abs(x):
             if abs(a0) < MARGIN:
                 raise Ambiguous("abs at kink")
             return x if a0 > 0 else -x
-        return f_sqrt(f_real(x * f_conj(x)))
+        # |z| of a genuinely complex, non-constant quantity is not complex differentiable: UFL documents
+        # that its derivative rule for abs only covers real arguments, so the model gives no verdict
+        raise Undefined("derivative of abs of a complex quantity")
     return abs(x)
 
 
